@@ -4,7 +4,7 @@ import json
 from hypothesis import strategies as st
 
 from core.outcome import Outcome, discard, observe
-from gen.objects import CARVERS, PIPELINES, STEPS, fit_object, fitted_case, make_object
+from gen.objects import CARVERS, PIPELINES, STEPS, fit_object, fitted_case, make_object, object_dropna
 from gen.samples import build, summarize
 from oracles.mapping import is_missing, is_num, ref_group, groups_containing, values_equal, eq
 from oracles.views import feature_views, canonical_str
@@ -27,7 +27,7 @@ ASSUMPTIONS = [
 BUDGET = {"quick": 1200, "thorough": 60000}
 DEADLINE_S = {"quick": 200, "thorough": 3300}
 
-CLASSES = CARVERS + PIPELINES + STEPS + ("BinaryCarver", "ContinuousCarver", "Discretizer")
+CLASSES = CARVERS + PIPELINES + STEPS + ("BinaryCarver", "ContinuousCarver", "Discretizer", "ChainedDiscretizer")
 
 
 def strategy(tier):
@@ -39,7 +39,7 @@ def check_mapping(out: Outcome, obj, case, sample, frame, result, tag="", labell
     cfg = case["config"]
     is_carver = cfg["cls"] in CARVERS
     out_dtype = cfg.get("output_dtype", "str") if is_carver else "str"
-    dropna_all = cfg.get("dropna", True) if is_carver else True
+    dropna_all = object_dropna(case)
     str_nan = "__NAN__"
     nontrivial = False
     for feat, raw, spec in feature_views(obj, case):
